@@ -41,6 +41,12 @@ def checksumsConsistent (s : SyncTest) (frameToCheck : Frame) : M (SyncTest × B
     | some cs => return (s, cs == cell.checksum)
     | none => return ({ s with checksumHistory := ainsert cell.frame cell.checksum s.checksumHistory }, true)
 
+/-- The save inside the re-simulation loop: every frame but the one just loaded. -/
+def resimSave (i : Nat) (sync : SyncLayer) (reqs : List Request) : M (SyncLayer × List Request) :=
+  if i > 0 then do
+    let (sync, r) ← sync.saveCurrentState; pure (sync, reqs ++ [r])
+  else pure (sync, reqs)
+
 def adjustGamestate (s : SyncTest) (frameTo : Frame) (reqs : List Request) : M (SyncTest × List Request) := do
   let start := s.sync.currentFrame
   let count := start - frameTo
@@ -51,49 +57,68 @@ def adjustGamestate (s : SyncTest) (frameTo : Frame) (reqs : List Request) : M (
     | 0, _, sync, reqs => .ok (sync, reqs)
     | n + 1, i, sync, reqs => do
       let (sync, inputs) ← sync.synchronizedInputs s.pred s.dummyConnectStatus
-      let (sync, reqs) ← if i > 0 then do
-          let (sync, r) ← sync.saveCurrentState; pure (sync, reqs ++ [r])
-        else pure (sync, reqs)
+      let (sync, reqs) ← resimSave i sync reqs
       loop n (i + 1) sync.advanceFrame (reqs ++ [.advance inputs])
   let (sync, reqs) ← loop count.toNat 0 sync (reqs ++ [r])
   ensure (sync.currentFrame == start) "synctest adjust_gamestate: did not return to start"
   return ({ s with sync }, reqs)
 
-def advanceFrame (s : SyncTest) : M (SyncTest × Except GgrsError (List Request)) := do
-  let current := s.sync.currentFrame
-  let mut s := s
-  let mut reqs : List Request := []
-  if s.checkDistance > 0 && current > s.checkDistance then
-    let oldest := current - s.checkDistance
-    let mut mismatched : List Frame := []
-    for i in List.range (s.checkDistance + 1) do
-      let f := oldest + i
-      let (s', ok) ← s.checksumsConsistent f
-      s := s'
-      if !ok then mismatched := mismatched ++ [f]
-    if !mismatched.isEmpty then
-      return (s, .error (.mismatchedChecksum current mismatched))
-    let (s', reqs') ← s.adjustGamestate (s.sync.currentFrame - s.checkDistance) reqs
-    s := s'
-    reqs := reqs'
+/-- The comparison loop over the frames `oldest .. oldest + n - 1` (each call may prune and extend
+the history). -/
+def checkFrames (oldest : Frame) : Nat → Nat → SyncTest → List Frame → M (SyncTest × List Frame)
+  | 0, _, s, mismatched => .ok (s, mismatched)
+  | n + 1, i, s, mismatched => do
+    let f := oldest + i
+    let (s', ok) ← s.checksumsConsistent f
+    checkFrames oldest n (i + 1) s' (if !ok then mismatched ++ [f] else mismatched)
+
+/-- First half of `advance_frame` once the session is warm: compare, then roll back. -/
+def verifyAndRollback (s : SyncTest) (current : Frame) : M (SyncTest × Except GgrsError (List Request)) := do
+  let oldest := current - s.checkDistance
+  let (s, mismatched) ← checkFrames oldest (s.checkDistance + 1) 0 s []
+  if !mismatched.isEmpty then
+    return (s, .error (.mismatchedChecksum current mismatched))
+  let (s, reqs) ← s.adjustGamestate (s.sync.currentFrame - s.checkDistance) []
+  return (s, .ok reqs)
+
+/-- All local inputs go into the sync layer, in handle order. -/
+def addLocalInputs : List (Nat × PlayerInput) → SyncLayer → M SyncLayer
+  | [], sync => .ok sync
+  | (h, inp) :: rest, sync => do
+    let (sync, _) ← sync.addLocalInput h inp
+    addLocalInputs rest sync
+
+/-- The save before the new frame (skipped when nothing is ever compared). -/
+def saveBeforeAdvance (s : SyncTest) (reqs : List Request) : M (SyncTest × List Request) :=
+  if s.checkDistance > 0 then do
+    let (sync, r) ← s.sync.saveCurrentState
+    pure ({ s with sync }, reqs ++ [r])
+  else pure (s, reqs)
+
+/-- Second half of `advance_frame`: register inputs, save, simulate the new frame, bookkeeping. -/
+def finishFrame (s : SyncTest) (reqs : List Request) : M (SyncTest × Except GgrsError (List Request)) := do
   if s.numPlayers != s.localInputs.length then
     return (s, .error .invalidRequest)
-  for (h, inp) in s.localInputs do
-    let (sync, _) ← s.sync.addLocalInput h inp
-    s := { s with sync }
-  s := { s with localInputs := [] }
-  if s.checkDistance > 0 then
-    let (sync, r) ← s.sync.saveCurrentState
-    s := { s with sync }
-    reqs := reqs ++ [r]
+  let sync ← addLocalInputs s.localInputs s.sync
+  let s := { s with sync, localInputs := [] }
+  let (s, reqs) ← s.saveBeforeAdvance reqs
   let (sync, inputs) ← s.sync.synchronizedInputs s.pred s.dummyConnectStatus
-  reqs := reqs ++ [.advance inputs]
+  let reqs := reqs ++ [.advance inputs]
   let sync := sync.advanceFrame
   let safe := sync.currentFrame - s.checkDistance
   let sync ← sync.setLastConfirmedFrame safe false
-  s := { s with sync,
-                dummyConnectStatus := s.dummyConnectStatus.map fun c => { c with lastFrame := sync.currentFrame } }
-  return (s, .ok reqs)
+  return ({ s with sync,
+                   dummyConnectStatus := s.dummyConnectStatus.map fun c => { c with lastFrame := sync.currentFrame } },
+          .ok reqs)
+
+def advanceFrame (s : SyncTest) : M (SyncTest × Except GgrsError (List Request)) := do
+  let current := s.sync.currentFrame
+  if s.checkDistance > 0 && current > s.checkDistance then
+    let (s, r) ← s.verifyAndRollback current
+    match r with
+    | .error e => return (s, .error e)
+    | .ok reqs => s.finishFrame reqs
+  else s.finishFrame []
 
 def userExecute (s : SyncTest) (saves : List (Frame × Option Nat)) : SyncTest :=
   { s with sync := saves.foldl (fun sy (f, c) => sy.userSave f c) s.sync }
